@@ -2,7 +2,7 @@
 from common import *  # noqa: F401,F403
 
 RULE = ("random target curves (polynomial and rational bases, degree 0..3, repeated knots) with random points at (a) default nodes, (b) explicit "
-        "random nodes (len = npts: interpolation; len > npts: least squares), (c) samples of a curve of the same space (reproduction); "
+        "random nodes (len = npts: interpolation; len > npts: least squares), (c) samples of a curve of the same space (reproduction), nodes repeated with unequal counts; "
         "fit_function with polynomial / same-space functions; fewer points than control points.  Node sets whose collocation matrix is rank "
         "deficient (exact rank) are classified inadmissible.  Non-trivial: an interior knot or degree >= 2; distinct = distinct (U, W, nodes, points)."
         " Also: fit histories on one (knot vector, node set) with alternating rational / polynomial bases.")
@@ -143,6 +143,10 @@ def run(ctx):
             nodes = sorted(set(a + (b - a) * F(rng.randint(0, 60), 60) for _ in range(3 * k)))[:k]
             if len(nodes) < n:
                 continue
+            if kind != "square" and rng.random() < 0.35:
+                # measurements repeated at the same node (unequal repetition counts): each one is a row of its own
+                nodes = nodes + [rng.choice(nodes) for _ in range(rng.randint(1, 3))]
+                ctx["rec"].count("nodes", "repeated")
             if rng.random() < 0.5:
                 rng.shuffle(nodes)         # the pairs (node, point) may be listed in any order
             k = len(nodes)
